@@ -46,6 +46,54 @@ def exc_class(e: BaseException) -> str:
     return "err:" + type(e).__name__
 
 
+# ---------------------------------------------------------------------- argument kinds (LESSONS.md 3: do not normalise inputs)
+IX_KINDS = ["int64", "range", "int32", "uint64", "int8", "named", "pop"]
+
+
+def ak_obj(ak):
+    """the additional key as the Python object handed to the stream. JSON forms: None / int / str as they are;
+    {"f": 1.5} float, {"b": true} bool, {"t": [..]} tuple, {"np": 7} numpy int64, {"ts": "2020-01-01 06:00"} Timestamp"""
+    if not isinstance(ak, dict):
+        return ak
+    (k, v), = ak.items()
+    if k == "f":
+        return float(v)
+    if k == "b":
+        return bool(v)
+    if k == "t":
+        return tuple(v)
+    if k == "np":
+        import numpy as np
+        return np.int64(v)
+    if k == "ts":
+        import pandas as pd
+        return pd.Timestamp(v)
+    raise ValueError(ak)
+
+
+def ak_str(ak) -> str:
+    """what identifies an additional key in the seed string: its str()"""
+    return str(ak_obj(ak))
+
+
+def expected_size(spec) -> int:
+    """block size from the CONFIGURATION: `max(map_size, 10 * population_size)` in a simulation, the given size otherwise"""
+    return max(spec["size"], 10 * spec["pop"]) if spec["mode"] == "sim" else spec["size"]
+
+
+def expected_tstr(spec, steps: int) -> str:
+    """str(clock()) after `steps` steps, from the CONFIGURATION (start 0 / step 1; 2021-03-01 / 1.5 days) or the scripted clock;
+    -1 = the creation time of the initial population (one step before the start)"""
+    import pandas as pd
+    if spec["mode"] == "sim":
+        if spec["clock"] == "simple":
+            return str(0 + 1 * steps)
+        return str(pd.Timestamp(year=2021, month=3, day=1) + steps * pd.Timedelta(days=1.5))
+    if spec["clock"] == "simple":
+        return str(3 + 2 * steps)
+    return str(pd.Timestamp("2019-12-31 18:00:00") + pd.Timedelta(hours=36) * steps)
+
+
 class Env:
     """the running stack; see module docstring"""
 
@@ -76,6 +124,29 @@ class Env:
         names = [s[0] for s in spec["streams"]]
         crn = self.crn
         env = self
+        owners = list(spec.get("owners") or [0] * len(names))        # which component asks for the stream
+        forms = list(spec.get("forms") or ["pos"] * len(names))      # how it asks: get_stream(n) / (n, False) / keywords
+        init_use = bool(spec.get("init_use"))
+        self.init_log = []
+
+        done = []
+
+        def dup_attempt(builder):
+            """the component that is set up LAST asks for the first decision point again (whoever got it): must be refused"""
+            done.append(1)
+            if len(done) == 2 and names:
+                try:
+                    builder.randomness.get_stream(names[0])
+                    env.dup = "ok"
+                except Exception as e:  # noqa: BLE001
+                    env.dup = exc_class(e)
+
+        def ask(builder, n, form):
+            if form == "pos2":
+                return builder.randomness.get_stream(n, False)
+            if form == "kw":
+                return builder.randomness.get_stream(decision_point=n, initializes_crn_attributes=False)
+            return builder.randomness.get_stream(n)
 
         class Probe(Component):
             @property
@@ -87,13 +158,9 @@ class Env:
                 return list(KEY_COLS) if crn else ["probe_col"]
 
             def setup(self, builder):
-                self.streams = [builder.randomness.get_stream(n) for n in names]
-                if names:
-                    try:
-                        builder.randomness.get_stream(names[0])
-                        env.dup = "ok"
-                    except Exception as e:  # noqa: BLE001
-                        env.dup = exc_class(e)
+                self.streams = {k: ask(builder, n, forms[k]) for k, n in enumerate(names) if owners[k] == 0}
+                self.tracked_view = builder.population.get_view(["tracked"])
+                dup_attempt(builder)
                 self.init_stream = builder.randomness.get_stream("crn.init", initializes_crn_attributes=True)
                 self.register = builder.randomness.register_simulants
                 self.clock = builder.time.clock()
@@ -107,7 +174,29 @@ class Env:
                     self.register(df)
                 else:
                     df = pd.DataFrame({"probe_col": 1}, index=pop_data.index)
+                if init_use and len(pop_data.index) and env.all_streams:
+                    # first use of an ordinary stream INSIDE an initializer (LESSONS.md 7), reversed request, keyword form
+                    st = env.all_streams[0]
+                    rec = {"t": str(self.clock()), "steps": env.steps if env.sim_ready else -1, "req": [int(x) for x in pop_data.index[::-1]]}
+                    try:
+                        rec["ks"], rec["block"] = env.block(st, "init")
+                        d = st.get_draw(index=pop_data.index[::-1], additional_key="init")
+                        rec.update(r="ok", idx=[int(x) for x in d.index], hx=[fhex(x) for x in d.values])
+                        rec["pos"] = [int(x) for x in st.index_map[pop_data.index[::-1]]]
+                    except Exception as e:  # noqa: BLE001
+                        rec["r"] = exc_class(e)
+                    env.init_log.append(rec)
                 self.population_view.update(df)
+
+        class Other(Component):
+            """a second component that asks for some of the decision points"""
+            @property
+            def name(self):
+                return "other_stream_user"
+
+            def setup(self, builder):
+                self.streams = {k: ask(builder, n, forms[k]) for k, n in enumerate(names) if owners[k] == 1}
+                dup_attempt(builder)
 
         cfg = {"population": {"population_size": spec["pop"]},
                "randomness": {"map_size": spec["size"], "key_columns": list(KEY_COLS) if crn else [],
@@ -122,11 +211,19 @@ class Env:
                            "step_size": 1.5}
         SimulationContext._clear_context_cache()
         self.probe = Probe()
-        self.sim = SimulationContext(components=[self.probe], configuration=cfg, plugin_configuration=plug,
+        self.other = Other()
+        self.all_streams = []
+        self.sim_ready = False
+        comps = [self.other, self.probe] if spec.get("other_first") else [self.probe, self.other]
+        self.sim = SimulationContext(components=comps, configuration=cfg, plugin_configuration=plug,
                                      logging_verbosity=0)
         self.sim.setup()
+        merged = dict(self.probe.streams)
+        merged.update(self.other.streams)
+        self.all_streams = [merged[k] for k in range(len(names))]
         self.sim.initialize_simulants()
-        self.streams = self.probe.streams
+        self.sim_ready = True
+        self.streams = self.all_streams
         self.init_stream = self.probe.init_stream
         self.clock = self.probe.clock
         self.index_map = self.streams[0].index_map if self.streams else self.init_stream.index_map
@@ -155,6 +252,7 @@ class Env:
         self.init_stream = RandomnessStream("crn.init", self.clock, self.seed_str, self.index_map,
                                             initializes_crn_attributes=True)
         self.labels = []
+        self.init_log = []
         self._register(list(spec.get("labels", [])))
 
     def _register(self, labels):
@@ -184,6 +282,12 @@ class Env:
         else:
             self._register(list(n_or_labels))
 
+    def untrack(self, labels):
+        """mark simulants untracked (simulation only): they stay registered with the randomness system"""
+        import numpy as np
+        if self.sim is not None and labels:
+            self.probe.tracked_view.update(self.pd.Series(False, index=self.pd.Index(np.array(labels, dtype="int64")), name="tracked"))
+
     def tstr(self) -> str:
         return str(self.clock())
 
@@ -207,9 +311,26 @@ class Env:
         raw = np.random.RandomState(seed=get_hash(ks)).random_sample(len(stream.index_map))
         return ks, [int(x) for x in (raw * float(TWO53)).astype("int64")]
 
-    def index(self, req):
+    def index(self, req, kind="int64"):
+        """the request as a pandas Index of the given kind (falls back to int64 where the kind cannot hold the labels)"""
         import numpy as np
-        return self.pd.Index(np.array(req, dtype="int64"))
+        pd = self.pd
+        n = len(req)
+        if kind == "range" and n and req == list(range(req[0], req[0] + n)):
+            return pd.RangeIndex(req[0], req[0] + n)
+        if kind == "range" and n > 1 and req == list(range(req[0], req[0] - n, -1)):
+            return pd.RangeIndex(req[0], req[0] - n, -1)
+        if kind in ("int32", "uint64") and n:
+            return pd.Index(np.array(req, dtype=kind))
+        if kind == "int8" and n and max(req) < 128:
+            return pd.Index(np.array(req, dtype="int8"))
+        if kind == "named":
+            return pd.Index(np.array(req, dtype="int64"), name="simulant")
+        if kind == "pop" and self.sim is not None and n:
+            idx = self.sim.get_population(untracked=True).index       # the population's own index object
+            if req == [int(x) for x in idx]:
+                return idx
+        return pd.Index(np.array(req, dtype="int64"))
 
     def close(self):
         self.sim = None
